@@ -61,7 +61,18 @@ def ty(T):
 
 def corpus(tier):
     fs = []
-    add = fs.append
+
+    def add(f, vec=None, vret=True):
+        """vec: names of the parameters that are vectors in the vector overload (None: no separate vector overload is analysed)"""
+        fs.append(f)
+        if vec:
+            L_ = 3
+            vt = lambda T: G.vec(L_, T) if isinstance(T, str) else None
+            if any(not isinstance(pt, str) for pn, pt, bx in f.params if pn in vec):
+                return
+            params = [(pn, vt(pt) if pn in vec else pt, bx) for pn, pt, bx in f.params]
+            ret = vt(f.ret) if (vret and isinstance(f.ret, str)) else f.ret
+            fs.append(F(f.name + ' [vec3]', ret, params, f.call, f.cfg))
     ints = ['int', 'uint'] + (['int8', 'uint8', 'int64', 'uint64'] if tier == 'thorough' else ['int8', 'uint64'])
     sints = [t for t in ints if not t.startswith('u')]
     for T in ints:
@@ -71,35 +82,35 @@ def corpus(tier):
         sh = (0, w - 1)         # rotation / shift counts
         # func_common
         if sg:
-            add(F('abs<%s>' % T, T, [('x', T, (-(1 << (w - 1)) + 1, (1 << (w - 1)) - 1))], 'abs(x)'))
-            add(F('sign<%s>' % T, T, [('x', T, FULL)], 'sign(x)'))
+            add(F('abs<%s>' % T, T, [('x', T, (-(1 << (w - 1)) + 1, (1 << (w - 1)) - 1))], 'abs(x)'), vec=('x',))
+            add(F('sign<%s>' % T, T, [('x', T, FULL)], 'sign(x)'), vec=('x',))
         # func_integer
         # GLSL: offset + bits <= width.  Two boxes that satisfy the relation: offset 0 with any count, and offset / count each up to half the width
-        add(F('bitfieldExtract<%s>(offset 0)' % T, T, [('v', T, FULL), ('b', 'int', cnt)], 'bitfieldExtract(v, 0, b)'))
-        add(F('bitfieldExtract<%s>' % T, T, [('v', T, FULL), ('off', 'int', (0, w // 2 - 1)), ('b', 'int', (0, w // 2))], 'bitfieldExtract(v, off, b)'))
-        add(F('bitfieldInsert<%s>(offset 0)' % T, T, [('v', T, FULL), ('i', T, FULL), ('b', 'int', cnt)], 'bitfieldInsert(v, i, 0, b)'))
-        add(F('bitfieldInsert<%s>' % T, T, [('v', T, FULL), ('i', T, FULL), ('off', 'int', (0, w // 2 - 1)), ('b', 'int', (0, w // 2))], 'bitfieldInsert(v, i, off, b)'))
-        add(F('bitfieldReverse<%s>' % T, T, [('v', T, FULL)], 'bitfieldReverse(v)'))
-        add(F('bitCount<%s>' % T, 'int', [('v', T, FULL)], 'bitCount(v)'))
-        add(F('findLSB<%s>' % T, 'int', [('v', T, FULL)], 'findLSB(v)'))
-        add(F('findMSB<%s>' % T, 'int', [('v', T, FULL)], 'findMSB(v)'))
+        add(F('bitfieldExtract<%s>(offset 0)' % T, T, [('v', T, FULL), ('b', 'int', cnt)], 'bitfieldExtract(v, 0, b)'), vec=('v',))
+        add(F('bitfieldExtract<%s>' % T, T, [('v', T, FULL), ('off', 'int', (0, w // 2 - 1)), ('b', 'int', (0, w // 2))], 'bitfieldExtract(v, off, b)'), vec=('v',))
+        add(F('bitfieldInsert<%s>(offset 0)' % T, T, [('v', T, FULL), ('i', T, FULL), ('b', 'int', cnt)], 'bitfieldInsert(v, i, 0, b)'), vec=('v', 'i'))
+        add(F('bitfieldInsert<%s>' % T, T, [('v', T, FULL), ('i', T, FULL), ('off', 'int', (0, w // 2 - 1)), ('b', 'int', (0, w // 2))], 'bitfieldInsert(v, i, off, b)'), vec=('v', 'i'))
+        add(F('bitfieldReverse<%s>' % T, T, [('v', T, FULL)], 'bitfieldReverse(v)'), vec=('v',))
+        add(F('bitCount<%s>' % T, 'int', [('v', T, FULL)], 'bitCount(v)'), vec=('v',))
+        add(F('findLSB<%s>' % T, 'int', [('v', T, FULL)], 'findLSB(v)'), vec=('v',))
+        add(F('findMSB<%s>' % T, 'int', [('v', T, FULL)], 'findMSB(v)'), vec=('v',))
         # gtc/bitfield
-        add(F('mask<%s>' % T, T, [('b', T, cnt)], 'mask(b)'))
-        add(F('bitfieldRotateRight<%s>' % T, T, [('v', T, FULL), ('s', 'int', sh)], 'bitfieldRotateRight(v, s)'))
-        add(F('bitfieldRotateLeft<%s>' % T, T, [('v', T, FULL), ('s', 'int', sh)], 'bitfieldRotateLeft(v, s)'))
+        add(F('mask<%s>' % T, T, [('b', T, cnt)], 'mask(b)'), vec=('b',))
+        add(F('bitfieldRotateRight<%s>' % T, T, [('v', T, FULL), ('s', 'int', sh)], 'bitfieldRotateRight(v, s)'), vec=('v',))
+        add(F('bitfieldRotateLeft<%s>' % T, T, [('v', T, FULL), ('s', 'int', sh)], 'bitfieldRotateLeft(v, s)'), vec=('v',))
         half = (0, w // 2)
-        add(F('bitfieldFillOne<%s>' % T, T, [('v', T, FULL), ('f', 'int', (0, w // 2 - 1)), ('c', 'int', half)], 'bitfieldFillOne(v, f, c)'))
-        add(F('bitfieldFillZero<%s>' % T, T, [('v', T, FULL), ('f', 'int', (0, w // 2 - 1)), ('c', 'int', half)], 'bitfieldFillZero(v, f, c)'))
+        add(F('bitfieldFillOne<%s>' % T, T, [('v', T, FULL), ('f', 'int', (0, w // 2 - 1)), ('c', 'int', half)], 'bitfieldFillOne(v, f, c)'), vec=('v',))
+        add(F('bitfieldFillZero<%s>' % T, T, [('v', T, FULL), ('f', 'int', (0, w // 2 - 1)), ('c', 'int', half)], 'bitfieldFillZero(v, f, c)'), vec=('v',))
         # ext/scalar_integer, gtc/round
         pos = (1, (1 << (w - 2)) - 1)
         inner = (-(1 << (w - 2)) + 1, (1 << (w - 2)) - 1) if sg else (0, (1 << (w - 2)) - 1)
-        add(F('isPowerOfTwo<%s>' % T, 'bool', [('x', T, inner)], 'isPowerOfTwo(x)'))
+        add(F('isPowerOfTwo<%s>' % T, 'bool', [('x', T, inner)], 'isPowerOfTwo(x)'), vec=('x',))
         for fn_ in ('ceilPowerOfTwo', 'floorPowerOfTwo', 'roundPowerOfTwo', 'nextPowerOfTwo', 'prevPowerOfTwo'):
-            add(F('%s<%s>' % (fn_, T), T, [('x', T, pos)], '%s(x)' % fn_))
+            add(F('%s<%s>' % (fn_, T), T, [('x', T, pos)], '%s(x)' % fn_), vec=('x',))
         mult = (1, (1 << (w // 2 - 1)) - 1)
-        add(F('isMultiple<%s>' % T, 'bool', [('x', T, inner), ('m', T, mult)], 'isMultiple(x, m)'))
+        add(F('isMultiple<%s>' % T, 'bool', [('x', T, inner), ('m', T, mult)], 'isMultiple(x, m)'), vec=('x', 'm'))
         for fn_ in ('ceilMultiple', 'floorMultiple', 'roundMultiple', 'nextMultiple', 'prevMultiple'):
-            add(F('%s<%s>' % (fn_, T), T, [('x', T, inner), ('m', T, mult)], '%s(x, m)' % fn_))
+            add(F('%s<%s>' % (fn_, T), T, [('x', T, inner), ('m', T, mult)], '%s(x, m)' % fn_), vec=('x', 'm'))
     # carries
     add(F('uaddCarry', 'uint', [('x', 'uint', FULL), ('y', 'uint', FULL)], '[&]{ glm::uint c; return uaddCarry(x, y, c) + c; }()'))
     add(F('usubBorrow', 'uint', [('x', 'uint', FULL), ('y', 'uint', FULL)], '[&]{ glm::uint c; return usubBorrow(x, y, c) ^ c; }()'))
@@ -114,13 +125,13 @@ def corpus(tier):
     # float -> int conversions
     for T in ('float', 'double'):
         i31 = (-2147483000.0, 2147483000.0)
-        add(F('roundEven<%s>' % T, T, [('x', T, ANYF)], 'roundEven(x)'))
-        add(F('round<%s>' % T, T, [('x', T, ANYF)], 'round(x)'))
-        add(F('iround<%s>' % T, 'int', [('x', T, i31)], 'iround(x)'))
-        add(F('uround<%s>' % T, 'uint', [('x', T, (0.0, 4294967000.0))], 'uround(x)'))
+        add(F('roundEven<%s>' % T, T, [('x', T, ANYF)], 'roundEven(x)'), vec=('x',))
+        add(F('round<%s>' % T, T, [('x', T, ANYF)], 'round(x)'), vec=('x',))
+        add(F('iround<%s>' % T, 'int', [('x', T, i31)], 'iround(x)'), vec=('x',))
+        add(F('uround<%s>' % T, 'uint', [('x', T, (0.0, 4294967000.0))], 'uround(x)'), vec=('x',))
         add(F('floatBitsToInt-mod<%s>' % T, T, [('x', T, ANYF), ('y', T, ANYF)], 'mod(x, y)'))
         for fn_ in ('ceilMultiple', 'floorMultiple', 'roundMultiple'):
-            add(F('%s<%s>' % (fn_, T), T, [('x', T, (-1e6, 1e6)), ('m', T, (1.0, 1e3))], '%s(x, m)' % fn_))
+            add(F('%s<%s>' % (fn_, T), T, [('x', T, (-1e6, 1e6)), ('m', T, (1.0, 1e3))], '%s(x, m)' % fn_), vec=('x', 'm'))
     add(F('frexp<float>', 'float', [('x', 'float', ANYF)], '[&]{ int e; float m = frexp(x, e); return m + float(e); }()'))
     add(F('ldexp<float>', 'float', [('x', 'float', ANYF), ('e', 'int', (-200, 200))], 'ldexp(x, e)'))
     add(F('floatBitsToInt', 'int', [('x', 'float', ANYF)], 'floatBitsToInt(x)'))
@@ -311,8 +322,24 @@ def expand_dnf(cond, limit=256):
     return out
 
 
-def unsat_in_box(cond, ib, fb):
-    """True if no input inside the boxes satisfies the path condition (DNF of literals)"""
+def unsat_in_box(cond, ib, fb, depth=0):
+    """True if no input inside the boxes satisfies the path condition (DNF of literals); integer inputs whose box straddles zero are split by sign
+    (bit tricks on the sign bit are linear on each half)"""
+    if _unsat_in_box(cond, ib, fb):
+        return True
+    if depth >= 3:
+        return False
+    used = {x for conj in cond.d for lit in conj for x in tm.walk(lit) if x.op == 'in'}
+    for x in sorted(used, key=lambda t: t.id):
+        if x in ib and ib[x][0] < 0 <= ib[x][1]:
+            lo, hi = ib[x]
+            a, b = dict(ib), dict(ib)
+            a[x], b[x] = (lo, -1), (0, hi)
+            return unsat_in_box(cond, a, fb, depth + 1) and unsat_in_box(cond, b, fb, depth + 1)
+    return False
+
+
+def _unsat_in_box(cond, ib, fb):
     for conj in expand_dnf(cond):
         bi, bf = dict(ib), dict(fb)
         dead = False
@@ -333,7 +360,7 @@ def unsat_in_box(cond, ib, fb):
 
 
 def _fcands(lo, hi, w):
-    base = [0.0, 0.5, -0.5, 1.0, -1.0, 1.5, 2.5, -2.5, 2147483648.5, -2147483649.5, 4294967296.5, 9007199254740991.5 / 2, 255.0, 256.0, 0.49999997, 65504.0, 65536.0, 2147483648.0, -2147483904.0, 4294967296.0, 8388609.0, 1e10, -1e10, 1e30, -1e30, 3.0e38, -3.0e38, 1e-40, 3.4e38]
+    base = [0.0, 0.5, -0.5, 1.0, -1.0, 1.5, 2.5, -2.5, 2147483648.5, -2147483649.5, 4294967296.5, 9007199254740991.5 / 2, 255.0, 256.0, 0.49999997, 65504.0, 65536.0, 2147483648.0, -2147483904.0, 4294967296.0, 8388609.0, 1e10, -1e10, 1e30, -1e30, 3.0e38, -3.0e38, 1e-40, 3.4e38, 1e-20, -1e-20, 2.0 ** -46, 2.0 ** -25, 2.0 ** -24, 6e-8, 6.1e-5, 1e-10, 1e-30, 65520.0, 1e5, 0.1, 1.0 / 3.0]
     out = [lo, hi] + [v for v in base if lo <= v <= hi]
     return out
 
